@@ -144,6 +144,17 @@ the record still says revoked and the request is refused. -/
 def holdsRevoked (recordRevoked : Bool) (o : Obs) : Bool :=
   recordRevoked && o.ack == .fail && o.att == .none && !o.data && ackDiscipline o
 
+/-- Observation of the two-node scenario: a target forwarded from another node for tunnel id `X` (a variant
+spelling of a victim's tunnel id), both sources writing.  `seesVictim`: bytes of the victim's tunnel became readable
+on the forwarded connection; `victimReady`: the victim's bridge was told its target is there. -/
+structure TwoNodeObs where
+  seesVictim : Bool
+  victimReady : Bool
+deriving DecidableEq, Repr
+
+/-- A connection entitled to another mapping only is never joined to the victim's tunnel through another node. -/
+def holdsTwoNode (o : TwoNodeObs) : Bool := !o.seesVictim && !o.victimReady
+
 /-- What the session manager's bookkeeping guarantees about a connection (established by the auth handlers,
 property C03): a client id is set only together with the authenticated flag. -/
 def identWF (id : ConnIdent) : Bool := id.clientID == 0 || id.authenticated
